@@ -376,6 +376,31 @@ let do_csv (args : string list) : string =
       (if r = "" then "." else r) ^ " " ^ (match st with SOk -> "ok" | SErr -> "err" | SPanic -> "panic")
   | _ -> "?csv-args"
 
+(* ---------- C15 pyramids ---------- *)
+let ok_or_fail = function Ok v -> v | _ -> failwith "outcome"
+let py_of (s : string) : bbox list =
+  let base = ok_or_fail py_new_empty in
+  if s = "-" then base else
+  List.fold_left (fun p t -> ok_or_fail (py_set_level p (parse_bbox t))) base (split_on ',' s)
+let fmt_py (p : bbox list) : string =
+  let base = ok_or_fail py_new_empty in
+  let l = List.filter_map (fun (b, e) -> if b = e then None else Some (fmt_bbox b)) (List.combine p base) in
+  if l = [] then "-" else String.concat "," l
+let do_pyr (op : string) (a : string array) : string =
+  let n i = n_of_string a.(i) in
+  let opt = function None -> "-" | Some z -> string_of_n z in
+  match op with
+  | "py.intersect" -> out_fmt fmt_py (py_intersect (py_of a.(0)) (py_of a.(1)))
+  | "py.include" -> out_fmt fmt_py (py_include_pyramid (py_of a.(0)) (py_of a.(1)))
+  | "py.inccoord" -> out_fmt fmt_py (py_include_coord (py_of a.(0)) (n 1) (n 2) (n 3))
+  | "py.zmin" -> fmt_py (py_set_zoom_min (py_of a.(0)) (n 1))
+  | "py.zmax" -> fmt_py (py_set_zoom_max (py_of a.(0)) (n 1))
+  | "py.info" -> let p = py_of a.(0) in Printf.sprintf "%s %s %s %s" (opt (py_zoom_min p)) (opt (py_zoom_max p)) (string_of_n (py_count p)) (b01 (py_is_empty p))
+  | "py.contains" -> b01 (py_contains (py_of a.(0)) (n 1) (n 2) (n 3))
+  | "py.overlaps" -> b01 (py_overlaps (py_of a.(0)) (parse_bbox a.(1)))
+  | "py.border" -> out_fmt fmt_py (py_add_border bbox_add_border_variant (py_of a.(0)) (n 1) (n 2) (n 3) (n 4))
+  | _ -> "?py-op"
+
 (* ---------- dispatch ---------- *)
 let dispatch (op : string) (args : string list) : string =
   match op with
@@ -397,6 +422,7 @@ let dispatch (op : string) (args : string list) : string =
           | Pread (o, l) -> "pread:" ^ string_of_n o ^ ":" ^ string_of_n l)
           (read_range_prog file_read_variant (n_of_string off) (n_of_string len)))
       | _ -> "?sysprog-args")
+  | _ when String.length op > 3 && String.sub op 0 3 = "py." -> do_pyr op (Array.of_list args)
   | _ when String.length op > 3 && (String.sub op 0 3 = "bb." || String.sub op 0 3 = "co.") -> do_bbox op (Array.of_list args)
   | _ -> "?unknown-op"
 
